@@ -7,6 +7,7 @@ import (
 	"fmt"
 	"net"
 	"os"
+	"runtime/debug"
 	"strings"
 	"sync"
 	"time"
@@ -422,6 +423,12 @@ func runDrv(c *ctx) {
 		perio.VerifSync(ps)
 		return perio.VerifDump(ps)
 	}
+	// damaged IEs that once made the driver fault run first
+	for _, a := range c.args {
+		if strings.HasPrefix(a, "corpus=") && (len(c.args) == 0 || !strings.Contains(c.args[0], "/") || strings.HasPrefix(c.args[0], "0/")) {
+			replayDrvmal(c, e, a[7:], false)
+		}
+	}
 	for i := 0; i < n; i++ {
 		seid := seidOf(r)
 		kind := []string{"pdr", "far", "qer", "urr", "bar"}[r.intn(5)]
@@ -590,4 +597,79 @@ func runDrv(c *ctx) {
 			}
 		}
 	}
+}
+
+// drvmal-replay <file>: re-runs the `T drvmal` lines of a trace / replay file and prints the stack of any fault
+func init() { register("drvmal-replay", runDrvmalReplay) }
+
+func runDrvmalReplay(c *ctx) {
+	if len(c.args) < 1 {
+		die(2)
+	}
+	if !replayDrvmal(c, newDrvEnv(), c.args[0], true) {
+		die(2)
+	}
+}
+
+// replayDrvmal hands the damaged IEs of `T drvmal` lines (a trace, a replay file, the corpus) to the real driver again
+func replayDrvmal(c *ctx, e *drvEnv, file string, stacks bool) bool {
+	b, err := os.ReadFile(file)
+	if err != nil {
+		return false
+	}
+	for _, ln := range strings.Split(string(b), "\n") {
+		f := strings.Fields(ln)
+		if len(f) < 5 || f[0] != "T" || f[1] != "drvmal" {
+			continue
+		}
+		var seid uint64
+		fmt.Sscanf(f[3], "%x", &seid)
+		pay, _ := hex.DecodeString(f[4])
+		typ := map[string]uint16{"pdr.create": ie.CreatePDR, "pdr.update": ie.UpdatePDR, "far.create": ie.CreateFAR, "far.update": ie.UpdateFAR,
+			"qer.create": ie.CreateQER, "qer.update": ie.UpdateQER, "urr.create": ie.CreateURR, "urr.update": ie.UpdateURR,
+			"bar.create": ie.CreateBAR, "bar.update": ie.UpdateBARWithinSessionReportResponse}[f[2]]
+		x := ie.New(typ, pay)
+		res := func() (res string) {
+			defer func() {
+				if p := recover(); p != nil {
+					res = fmt.Sprintf("panic: %v\n%s", p, debug.Stack())
+				}
+			}()
+			var err error
+			switch f[2] {
+			case "pdr.create":
+				err = e.g.CreatePDR(seid, x)
+			case "pdr.update":
+				err = e.g.UpdatePDR(seid, x)
+			case "far.create":
+				err = e.g.CreateFAR(seid, x)
+			case "far.update":
+				err = e.g.UpdateFAR(seid, x)
+			case "qer.create":
+				err = e.g.CreateQER(seid, x)
+			case "qer.update":
+				err = e.g.UpdateQER(seid, x)
+			case "urr.create":
+				err = e.g.CreateURR(seid, x)
+			case "urr.update":
+				_, err = e.g.UpdateURR(seid, x)
+			case "bar.create":
+				err = e.g.CreateBAR(seid, x)
+			case "bar.update":
+				err = e.g.UpdateBAR(seid, x)
+			}
+			return resStr(err)
+		}()
+		e.reqs()
+		first := strings.SplitN(res, "\n", 2)[0]
+		if strings.HasPrefix(first, "panic") {
+			first = "panic"
+		}
+		c.count("damaged.corpus")
+		c.emit("T drvmal %s %x %s = %s", f[2], seid, f[4], first)
+		if stacks && strings.HasPrefix(res, "panic") {
+			fmt.Fprintln(os.Stderr, res)
+		}
+	}
+	return true
 }
